@@ -183,7 +183,23 @@ pub fn solid(name: &str) -> (Vec<Point3>, Vec<[u32; 3]>) {
 fn judge_mesh(v: &[Point3], f: &[[u32; 3]], is_solid: bool, queries: &[Point3], case: &Case, l: &mut Local) {
     let mk = || serde_json::to_value(case).unwrap();
     let poses = gen::iso3_poses();
-    let m = Mesh::new(v.to_vec(), f.to_vec(), is_solid);
+    // size == 7 marks the "queried, then moved" variant: the mesh object is built elsewhere, answers a few
+    // queries (whatever it caches is filled), is moved into place with `transform`, and only then judged
+    let m = if case.size == 7 {
+        let pre = poses[2];
+        let v0: Vec<Point3> = v.iter().map(|p| pre.inverse_transform_point(p)).collect();
+        let mut m0 = Mesh::new(v0.clone(), f.to_vec(), is_solid);
+        for q in [Point3::new(0.3, 0.2, 0.1), v0[0] + Vector3::new(0.2, -0.1, 0.4), Point3::new(5.0, -3.0, 2.0)] {
+            let _ = m0.surf_closest_to(&q);
+            let _ = m0.point_closest_to(&q);
+            let _ = m0.measure_point_deviation(&q, engeom::common::DistMode::ToPlane);
+        }
+        m0.transform(&pre);
+        l.bucket("mesh queried before being moved into place");
+        m0
+    } else {
+        Mesh::new(v.to_vec(), f.to_vec(), is_solid)
+    };
     let normals: Vec<Option<UnitVec3>> = m.tri_mesh().triangles().map(|t| t.normal()).collect();
     // for meshes flagged solid only outside queries are in the quantifier
     let centre = v.iter().fold(Point3::origin(), |a, p| a + p.coords / v.len() as f64);
@@ -509,6 +525,7 @@ pub fn cases(tier: Tier) -> Vec<Case> {
     for fam in ["tetrahedron", "octahedron", "prism", "box"] {
         for sol in [false, true] {
             out.push(Case { kind: "solid".into(), verts: vec![], force_closed: sol, family: fam.into(), size: 0, fine });
+            out.push(Case { kind: "solid".into(), verts: vec![], force_closed: sol, family: fam.into(), size: 7, fine });
         }
     }
     out
@@ -518,7 +535,7 @@ pub fn run(tier: Tier) -> i32 {
     let mut cx = Ctx::new("C02", tier, "exploration");
     cx.rule = "every 2D lattice curve with <= 4 vertices (open/force-closed) x the half-integer query grid; 3D lattice curves x a 7^3 grid; 7 structured large polyline families x 15 sizes (5..5000 edges: every QBVH occupancy and depth) x grid + on-entity queries; all 512 height fields over a 3x3 grid x 2 diagonal patterns and 4 solids (non-solid with inside queries, flagged solid with outside queries) x query grid x 4 caps x 3 angle limits; reference model: brute force over every edge / face. distinct = distinct entities".into();
     cx.bounds = json!({"curve2_seq_len": tier.pick(4, 5), "curve3_seq_len": 3, "query_grid_step": tier.pick(0.5, 0.25), "large_sizes": gen::LARGE_SIZES, "caps": [0.25, 1.0, 1.4142135623730951, 10.0], "angles": [0.2, 0.7853981633974483, 1.5]});
-    cx.require(&["many-element mesh", "query within 1e-3 of the surface", "query on the entity", "query equidistant from several elements", "query with a unique nearest element", "structured large polyline", "non-solid mesh with inside queries", "mesh flagged solid, outside queries"]);
+    cx.require(&["many-element mesh", "query within 1e-3 of the surface", "query on the entity", "query equidistant from several elements", "query with a unique nearest element", "structured large polyline", "non-solid mesh with inside queries", "mesh flagged solid, outside queries", "mesh queried before being moved into place"]);
     cx.assume("ties: any minimiser accepted; gray: distance within 1e-9 of the cap, zero offset (angle undefined), angle within 1e-9 of the acceptance boundary");
     cx.assume("inside queries are made on non-solid meshes only, as the quantifier says (is_solid has no effect on Mesh::new meshes)");
     let cs = cases(tier);
